@@ -34,9 +34,36 @@ namespace mon
    using input_t = pegtl::memory_input< ( MON_LAZY ? pegtl::tracking_mode::lazy : pegtl::tracking_mode::eager ), eol_t, std::string >;
 
    constexpr int kind_of_vid_c( int vid ) { return vid < 0 ? 0 : MON_KINDS[ vid ]; }
+   constexpr int kind_of_vid_b( int vid ) { return vid < 0 ? 0 : MON_KINDS_B[ vid ]; }
+
+   template< typename Rule > struct actA;
+   template< typename Rule > struct actB;
+   template< typename Rule > struct ctlA;
+   template< typename Rule > struct ctlB;
+
+   // actions with a match(): state / action / control switches attached to a rule (C13)
+   template< int Vid, int Fam >
+   struct act_impl< ref::A_CHANGE_STATE, Vid, Fam > : pegtl::change_state< st< 1 + Vid % 3 > > { static constexpr int family = Fam; };
+   template< int Vid, int Fam >
+   struct act_impl< ref::A_CHANGE_STATES, Vid, Fam > : pegtl::change_states< st< 1 + Vid % 3 > >
+   {
+      static constexpr int family = Fam;
+      template< typename In, typename... Outer >
+      static void success( const In& in, st< 1 + Vid % 3 >& s, Outer&&... outer ) { s.success( in, outer... ); }
+   };
+   template< int Vid, int Fam >
+   struct act_impl< ref::A_CHANGE_ACTION, Vid, Fam > : pegtl::change_action< actB > { static constexpr int family = Fam; };
+   template< int Vid, int Fam >
+   struct act_impl< ref::A_CHANGE_ACTION_AND_STATE, Vid, Fam > : pegtl::change_action_and_state< actB, st< 1 + Vid % 3 > > { static constexpr int family = Fam; };
+   template< int Vid, int Fam >
+   struct act_impl< ref::A_CHANGE_CONTROL, Vid, Fam > : pegtl::change_control< ctlB > { static constexpr int family = Fam; };
+   template< int Vid, int Fam >
+   struct act_impl< ref::A_ENABLE_ACTION, Vid, Fam > : pegtl::enable_action { static constexpr int family = Fam; };
+   template< int Vid, int Fam >
+   struct act_impl< ref::A_DISABLE_ACTION, Vid, Fam > : pegtl::disable_action { static constexpr int family = Fam; };
 
    template< typename Rule > struct actA : act_impl< kind_of_vid_c( rid< Rule >::v ), rid< Rule >::v, 0 > {};
-   template< typename Rule > struct actB : act_impl< kind_of_vid_c( rid< Rule >::v ), rid< Rule >::v, 1 > {};
+   template< typename Rule > struct actB : act_impl< kind_of_vid_b( rid< Rule >::v ), rid< Rule >::v, 1 > {};
 
    template< typename Rule > struct ctlA : std::conditional_t< ( MON_CTRL & 2 ) != 0, control_impl_unwind< Rule, 0, ( MON_CTRL & 1 ) != 0 >, control_impl< Rule, 0, ( MON_CTRL & 1 ) != 0, false > > {};
    template< typename Rule > struct ctlB : std::conditional_t< ( MON_CTRL & 2 ) != 0, control_impl_unwind< Rule, 1, ( MON_CTRL & 1 ) != 0 >, control_impl< Rule, 1, ( MON_CTRL & 1 ) != 0, false > > {};
